@@ -292,3 +292,27 @@ def footprint(wb):
                         stack.append(x)
         out[name] = total
     return out
+
+
+def check_call_sequence(ctx, label, seq, models=None, wrap=None):
+    """Library calls made one after the other in ONE process give what each gives in a process of its own (a memo keyed by
+    equality - 1 / TRUE / 1.0, "a" / "A" -, a module-level default, a cache edited in place would show here).
+    seq: [(function name, argument tuple)]; wrap: native -> value instance (default: the native value itself)."""
+    from xlsa.guards import World
+    shared = World()
+    alone = {}
+    n = 0
+
+    def outcome(name, args, world):
+        out = V.call(ctx, name, [wrap(a) if wrap else a for a in args], models=models, world=world)
+        return V.norm(out.value) if out.end == 'return' else f'<{out.end} {V.norm(out.value)!r}>'
+    for i, (name, args) in enumerate(seq):
+        key = (name, repr(args))
+        if key not in alone:
+            alone[key] = outcome(name, args, None)
+        got = outcome(name, args, shared)
+        n += 1
+        ctx.expect(got == alone[key] or same(got, alone[key]), V.registered(ctx, name).node, f'{label}: call {i + 1} of a sequence in one process: {name}{args!r}',
+                   f'{name}{args!r} gives {got!r} as call {i + 1} of a sequence of calls in one process ({", ".join(f"{n_}{a_!r}" for n_, a_ in seq[max(0, i - 3):i])} before it) '
+                   f'and {alone[key]!r} on its own: what one call computed or was given is no business of the next')
+    return n
